@@ -174,12 +174,12 @@ def finish(check: Check, t0: float, seed: int, selftest: Optional[dict] = None) 
     print(f'{check.pid} [{check.tier}]: {len(obligations)} obligations over {len(per_rule)} rules, '
           f'{len(discharged)} discharged, {len(knownhits)} known findings, {len(viol)} violations, '
           f'{len(check.functions_analysed)} functions analysed, {ev["wall_s"]}s')
-    if broken:
-        for r, f, m in broken:
-            print(f'ANALYSIS-ERROR: rule {r} matched {f} instances, fewer than the {m} confirmed by hand '
-                  f'(anchor moved or idiom no longer recognised)')
-        return 2
+    for r, f, m in broken:
+        print(f'ANALYSIS-ERROR: rule {r} matched {f} instances, fewer than the {m} confirmed by hand '
+              f'(anchor moved or idiom no longer recognised)')
     if viol:
         print(f'VIOLATION property={check.pid} replay={replay}')
         return 1
+    if broken:
+        return 2
     return 0
